@@ -142,6 +142,14 @@ def run():
                       vlib.model_check("WhenAllImplMC", cfgf, timeout=600))
     r3 = vlib.model_check("WhenAllImplMC", "WhenAllImpl_dev.cfg", expect_ok=False, timeout=600)
     chk.add_model("WhenAllImpl/variant check_then_act (must violate)", r3, note="violated: %s" % r3["violated"])
+    # sync_wait on binary_semaphore: the state in the caller's frame is not touched after acquire() may return
+    for cfgf, what in (("SyncWaitImpl.cfg", "value channel"), ("SyncWaitImpl_stopped.cfg", "stopped channel"),
+                       ("SyncWaitImpl_unlock_before_resume.cfg", "benign reordering unlock_before_resume")):
+        chk.add_model("SyncWaitImpl/%s (receiver emplace + release(1) steps vs. acquire + frame exit)" % what,
+                      vlib.model_check("SyncWaitImpl", cfgf, timeout=300))
+    for v in ("notify_returns_woken", "flag_after_release", "unlock_resume_relock"):
+        rs = vlib.model_check("SyncWaitImpl", "SyncWaitImpl_dev_%s.cfg" % v, expect_ok=False, timeout=300)
+        chk.add_model("SyncWaitImpl/variant %s (must violate)" % v, rs, note="violated: %s" % rs["violated"])
     reps = 4 if chk.thorough() else 2
     recs = []
     for rep in range(reps):
